@@ -222,7 +222,8 @@ def observe(lay):
             return tuple(out)
         wm = dict((k, v) for k, v in (st.get(-MAP_W) or ("list", ()))[1])
         q = wm.get(TOKEN)
-        queue = tags(st.get(-q[1])) if q is not None and q[0] == "seq" else None
+        # a token without a queue and a token with an empty queue are the same state (nobody waits)
+        queue = tags(st.get(-q[1])) if q is not None and q[0] == "seq" else ()
         im = dict((k, v) for k, v in (st.get(-MAP_I) or ("list", ()))[1])
         iv = im.get(TOKEN)
         idle = None
@@ -262,7 +263,7 @@ def spec_push(waiters, conn, idle_n, max_idle, have_queue, have_idle):
             idle = []
         if len(idle) < max_idle:
             idle.append(conn)
-    return (tuple(log), tuple(queue) if queue is not None else None, tuple(idle) if idle is not None else None, False)
+    return (tuple(log), tuple(queue) if queue is not None else (), tuple(idle) if idle is not None else None, False)
 
 
 def push_table(ctx, facts, label="PoolInner::push"):
@@ -310,7 +311,7 @@ def spec_cancel(waiters, connecting, have_queue):
     queue = [("tx:%s#%d" % (k, i), d) for i, (k, d) in enumerate(waiters)] if have_queue else None
     if connecting and queue is not None:
         queue = [(w, d) for (w, d) in queue if not d]
-    return ((), tuple(w for w, _ in queue) if queue is not None else None, (), False)
+    return ((), tuple(w for w, _ in queue) if queue is not None else (), (), False)
 
 
 def cancel_table(ctx, facts, label="PoolInner::cancel_connection"):
